@@ -63,3 +63,117 @@ Fixpoint oracle_all_from (f : list req * list resp -> list (N * N)) (i : N) (cs 
   | c :: r => map (fun p => (i * 1000 + fst p, snd p)%N) (f c) ++ oracle_all_from f (i + 1)%N r
   end.
 Definition oracle_all_c04 := oracle_all_from oracle_case_c04 0%N.
+
+(* ---- file-store variant of the correspondence check ---- *)
+From Emu.GCS Require Import FileList.
+
+Definition check_case_fs (c : list req * list resp) : option N :=
+  first_diff 0 (run_fs_canon (fst c)) (snd c).
+Fixpoint check_all_fs_from (i : N) (cs : list (list req * list resp)) : list (N * N) :=
+  match cs with
+  | [] => []
+  | c :: r => match check_case_fs c with
+              | Some k => (i, k) :: check_all_fs_from (i + 1)%N r
+              | None => check_all_fs_from (i + 1)%N r
+              end
+  end.
+Definition check_all_fs := check_all_fs_from 0%N.
+
+(* ---- C11: a complete pagination (a maximal run of consecutive list requests with the same
+   bucket/prefix/delimiter/maxResults, starting without cursor, each continuing from the previous
+   page's token, ending without token) must yield exactly the matching names, once, in order ---- *)
+
+Definition list_key (r : req) : option (str * str * str * option str) :=
+  match r with RList b p d _ m => Some (b, p, d, m) | _ => None end.
+Definition list_cursor (r : req) : option str := match r with RList _ _ _ c _ => c | _ => None end.
+
+Definition lkey_eqb (a b : str * str * str * option str) : bool :=
+  let '(b1, p1, d1, m1) := a in let '(b2, p2, d2, m2) := b in
+  beqb b1 b2 && beqb p1 p2 && beqb d1 d2 && opt_eqb beqb m1 m2.
+
+(* expected items / prefixes of a whole listing per the API semantics *)
+Definition collapse (prefix delim name : str) : option str :=
+  match delim with
+  | [] => None
+  | _ => match index_of (skipn (length prefix) name) delim with
+         | Some pos => Some (firstn (length prefix + pos + length delim) name)
+         | None => None
+         end
+  end.
+Fixpoint dedup_adj (l : list str) (seen : list str) : list str :=
+  match l with
+  | [] => []
+  | x :: r => if existsb (beqb x) seen then dedup_adj r seen else x :: dedup_adj r (x :: seen)
+  end.
+Definition expected_listing (names : list str) (prefix delim : str) : list str * list str :=
+  let matching := filter (fun n => has_prefix n prefix) names in
+  (filter (fun n => match collapse prefix delim n with None => true | Some _ => false end) matching,
+   dedup_adj (flat_map (fun n => match collapse prefix delim n with Some p => [p] | None => [] end) matching) []).
+
+Definition page_items (o : resp) : option (list str * list str * option str) :=
+  match r_body o with
+  | BList items prefixes next => Some (map v_name items, prefixes, next)
+  | _ => None
+  end.
+
+(* consume one chain starting at the head of (rs, obs); returns (items, prefixes, complete?, max page size, rest) *)
+Fixpoint chain_collect (k : str * str * str * option str) (cursor : option str)
+         (rs : list req) (obs : list resp) (accI accP : list str) (maxpage : nat)
+  : list str * list str * bool * nat * nat (* steps consumed *) :=
+  match rs, obs with
+  | r :: rs', o :: obs' =>
+      match list_key r with
+      | Some k' =>
+          if lkey_eqb k k' && opt_eqb beqb (list_cursor r) cursor && Z.eqb (r_status o) 200 then
+            match page_items o with
+            | Some (its, prs, next) =>
+                let sz := (length its + length prs)%nat in
+                let mp := Nat.max maxpage sz in
+                match next with
+                | None => (accI ++ its, accP ++ prs, true, mp, 1%nat)
+                | Some c => let '(i, p, done, m, n) := chain_collect k (Some c) rs' obs' (accI ++ its) (accP ++ prs) mp in
+                            (i, p, done, m, S n)
+                end
+            | None => (accI, accP, false, maxpage, 0%nat)
+            end
+          else (accI, accP, false, maxpage, 0%nat)
+      | None => (accI, accP, false, maxpage, 0%nat)
+      end
+  | _, _ => (accI, accP, false, maxpage, 0%nat)
+  end.
+
+(* codes: 1 items differ from the matching names, 2 collapsed prefixes differ, 3 page larger than maxResults *)
+Fixpoint c11_run (fuel : nat) (s : state) (i : N) (rs : list req) (obs : list resp) : list (N * N) :=
+  match fuel with
+  | O => []
+  | S f =>
+    match rs, obs with
+    | r :: rs', o :: obs' =>
+        let s' := fst (handle s r) in
+        match list_key r, list_cursor r with
+        | Some (b, p, d, m), None =>
+            let '(its, prs, done, maxpage, n) := chain_collect (b, p, d, m) None rs obs [] [] 0 in
+            let here :=
+              if done then
+                match get_bucket s b with
+                | Some bk =>
+                    let '(ei, ep) := expected_listing (map fst bk) p d in
+                    let lim := match m with
+                               | Some ms => match parse_int ms with Some z => Z.to_nat z | None => 0%nat end
+                               | None => 1000%nat end in
+                    (if list_eqb beqb its ei then [] else [(i, 1%N)])
+                    ++ (if list_eqb beqb prs ep then [] else [(i, 2%N)])
+                    ++ (if (maxpage <=? lim)%nat then [] else [(i, 3%N)])
+                | None => []
+                end
+              else [] in
+            here ++ c11_run f s' (i + 1)%N rs' obs'
+        | _, _ => c11_run f s' (i + 1)%N rs' obs'
+        end
+    | _, _ => []
+    end
+  end.
+
+Definition oracle_case_c11 (c : list req * list resp) : list (N * N) :=
+  c11_run (S (length (fst c))) init_state 0%N (fst c) (snd c).
+Definition oracle_all_c11 := oracle_all_from oracle_case_c11 0%N.
